@@ -15,6 +15,7 @@ Inductive pact :=
 | PDispatch                 (* nni_task_dispatch(&aio->a_task) *)
 | PFinish (rv : N)          (* nni_aio_finish*(aio, rv): the provider unlinked the aio and will complete it *)
 | PCallCancel (rv : N)      (* the saved cancel function is called with rv *)
+| PExpireProc (now : N)     (* expire loop: it gets to this aio of its batch (the lock was dropped in between) *)
 | PExpireDone               (* expire loop: aio->a_expiring = false (after its cancel call returned) *)
 | PStopWait.                (* nni_aio_stop: nni_aio_wait *)
 
@@ -48,7 +49,7 @@ Inductive alabel :=
                             (* a provider entry point reaches nni_aio_start (nni_sleep_aio when sleep) *)
 | LProvFinish (rv : N)      (* the provider completes the operation: unlinks it under its lock *)
 | LAbort (rv : N)           (* nni_aio_abort / nng_aio_cancel *)
-| LExpire (now : N)         (* the expire loop picks this aio *)
+| LExpire (now : N)         (* the expire loop's scan finds this aio due and marks it *)
 | LStop                     (* nni_aio_stop, up to the unlock *)
 | LClose                    (* nni_aio_close *)
 | LRun (k : nat)            (* thread k performs its next continuation *)
@@ -88,11 +89,41 @@ Definition do_call_cancel (s : aio) (rv : N) : aio * list pact :=
      [PFinish rv])
   else (s, []).
 
-Definition run_pact (s : aio) (a : pact) : option (aio * list pact) :=
+(* the expire loop processing one aio of its batch.  [fixed]: the repaired loop expires
+   only what is still due when its turn comes (a_expire < now); the pinned loop processed
+   whatever operation the aio carried by then. *)
+Definition do_expire_proc (fixed : bool) (s : aio) (now : N) : aio * list pact :=
+  let due := match a_expire s with Some e => N.ltb e now | None => false end in
+  if fixed && negb due then
+    (mkAio (a_stop s) (a_abort s) false (a_expire_ok s) (a_sleep s) (a_cancel s) (a_on_eq s) (a_expire s)
+           (a_result s) (t_busy s) (t_prep s) (t_queued s) (t_running s) (p_owns s) (p_sleep s) (g_subs s) (g_cbs s)
+           (g_fin s) (g_bad_result s) (g_early s) (g_stop_returned s) (g_cb_after_stop s) (g_subs_at_stop s) (threads s), [])
+  else
+    let rv := if a_expire_ok s then A_OK else A_TIMEDOUT in
+    (* a timeout delivered to an operation whose deadline has not passed *)
+    let early := g_early s || (negb due && N.eqb rv A_TIMEDOUT && (a_sleep s || a_cancel s)) in
+    if a_sleep s then
+      (mkAio (a_stop s) (a_abort s) false false false false false (a_expire s) rv
+             (t_busy s) (t_prep s) (t_queued s) (t_running s) false (p_sleep s) (g_subs s) (g_cbs s)
+             (match g_fin s with None => Some rv | x => x end) (g_bad_result s) early
+             (g_stop_returned s) (g_cb_after_stop s) (g_subs_at_stop s) (threads s), [PDispatch])
+    else if a_cancel s then
+      (mkAio (a_stop s) (a_abort s) true false (a_sleep s) false false (a_expire s) (a_result s)
+             (t_busy s) (t_prep s) (t_queued s) (t_running s) (p_owns s) (p_sleep s) (g_subs s) (g_cbs s)
+             (g_fin s) (g_bad_result s) early (g_stop_returned s) (g_cb_after_stop s)
+             (g_subs_at_stop s) (threads s), [PCallCancel rv; PExpireDone])
+    else
+      (mkAio (a_stop s) (a_abort s) false false (a_sleep s) false false (a_expire s) (a_result s)
+             (t_busy s) (t_prep s) (t_queued s) (t_running s) (p_owns s) (p_sleep s) (g_subs s) (g_cbs s)
+             (g_fin s) (g_bad_result s) early (g_stop_returned s) (g_cb_after_stop s)
+             (g_subs_at_stop s) (threads s), []).
+
+Definition run_pact (fixed : bool) (s : aio) (a : pact) : option (aio * list pact) :=
   match a with
   | PDispatch => Some (do_dispatch s, [])
   | PFinish rv => Some (do_finish s rv, [PDispatch])
   | PCallCancel rv => Some (do_call_cancel s rv)
+  | PExpireProc now => Some (do_expire_proc fixed s now)
   | PExpireDone =>
       Some (mkAio (a_stop s) (a_abort s) false (a_expire_ok s) (a_sleep s) (a_cancel s) (a_on_eq s) (a_expire s)
                   (a_result s) (t_busy s) (t_prep s) (t_queued s) (t_running s) (p_owns s) (p_sleep s) (g_subs s)
@@ -120,7 +151,7 @@ Fixpoint replace_nth {A} (l : list A) (k : nat) (x : option A) : list A :=
 Definition outstanding (s : aio) : bool :=
   p_owns s || negb (t_queued s =? 0) || existsb (fun t => existsb (fun a => match a with PFinish _ | PDispatch => true | _ => false end) t) (threads s).
 
-Definition astep (s : aio) (l : alabel) : option aio :=
+Definition astep (fixed : bool) (s : aio) (l : alabel) : option aio :=
   match l with
   | LStart zero dl sleep eok =>
       (* the caller's contract: one operation at a time *)
@@ -169,27 +200,14 @@ Definition astep (s : aio) (l : alabel) : option aio :=
                     (g_subs s) (g_cbs s) (g_fin s) (g_bad_result s) (g_early s) (g_stop_returned s)
                     (g_cb_after_stop s) (g_subs_at_stop s) (threads s))
   | LExpire now =>
+      (* the scan: the aio is due, is unlinked and marked; it is processed later in the batch *)
       if a_on_eq s then
         let due := match a_expire s with Some e => N.ltb e now | None => false end in
-        let rv := if a_expire_ok s then A_OK else A_TIMEDOUT in
-        let early := g_early s || (negb due && N.eqb rv A_TIMEDOUT) in
         if negb due then None else
-        if a_sleep s then
-          (* completed right here, under eq_mtx *)
-          Some (spawn (mkAio (a_stop s) (a_abort s) false false false false false (a_expire s) rv
-                             (t_busy s) (t_prep s) (t_queued s) (t_running s) false (p_sleep s) (g_subs s) (g_cbs s)
-                             (match g_fin s with None => Some rv | x => x end) (g_bad_result s) early
-                             (g_stop_returned s) (g_cb_after_stop s) (g_subs_at_stop s) (threads s)) [PDispatch])
-        else if a_cancel s then
-          Some (spawn (mkAio (a_stop s) (a_abort s) true false (a_sleep s) false false (a_expire s) (a_result s)
-                             (t_busy s) (t_prep s) (t_queued s) (t_running s) (p_owns s) (p_sleep s) (g_subs s) (g_cbs s)
-                             (g_fin s) (g_bad_result s) early (g_stop_returned s) (g_cb_after_stop s)
-                             (g_subs_at_stop s) (threads s)) [PCallCancel rv; PExpireDone])
-        else
-          Some (mkAio (a_stop s) (a_abort s) false false (a_sleep s) false false (a_expire s) (a_result s)
-                      (t_busy s) (t_prep s) (t_queued s) (t_running s) (p_owns s) (p_sleep s) (g_subs s) (g_cbs s)
-                      (g_fin s) (g_bad_result s) early (g_stop_returned s) (g_cb_after_stop s)
-                      (g_subs_at_stop s) (threads s))
+        Some (spawn (mkAio (a_stop s) (a_abort s) true (a_expire_ok s) (a_sleep s) (a_cancel s) false (a_expire s)
+                           (a_result s) (t_busy s) (t_prep s) (t_queued s) (t_running s) (p_owns s) (p_sleep s)
+                           (g_subs s) (g_cbs s) (g_fin s) (g_bad_result s) (g_early s) (g_stop_returned s)
+                           (g_cb_after_stop s) (g_subs_at_stop s) (threads s)) [PExpireProc now])
       else None
   | LStop =>
       if a_expiring s then None else     (* waits on eq_cv while the expire loop holds the aio *)
@@ -207,7 +225,7 @@ Definition astep (s : aio) (l : alabel) : option aio :=
   | LRun k =>
       match nth_error (threads s) k with
       | Some (a :: rest) =>
-          match run_pact s a with
+          match run_pact fixed s a with
           | Some (s1, more) =>
               let t := more ++ rest in
               Some (upd_threads s1 (replace_nth (threads s1) k (match t with [] => None | _ => Some t end)))
@@ -243,8 +261,8 @@ Definition astep (s : aio) (l : alabel) : option aio :=
                   (g_subs_at_stop s) (threads s))
   end.
 
-Fixpoint arun (s : aio) (ls : list alabel) : option aio :=
+Fixpoint arun (fixed : bool) (s : aio) (ls : list alabel) : option aio :=
   match ls with
   | [] => Some s
-  | l :: r => match astep s l with Some s1 => arun s1 r | None => None end
+  | l :: r => match astep fixed s l with Some s1 => arun fixed s1 r | None => None end
   end.
